@@ -91,6 +91,10 @@ def parse_vwsc_data(fdata: bytes) -> List[Any]:
         channelSize = struct.unpack(">h", fdata[idx:idx+2])[0]
         idx = idx + 2
         logging.debug("channelSize: %d", channelSize)
+        if channelSize < 2:
+            # The size includes its own two bytes: a smaller one would make
+            # the index stand still or go backwards forever
+            raise ValueError(vsprintf('Bad VWSC record size: %d', channelSize))
         if channelSize == 2:
             logging.debug('This frame is equals to the previous one!')
             if len(vwsc_data) == 0:
